@@ -228,3 +228,23 @@ Definition ex_run4 : state :=
 Example C08_ex_stale_lock :
   s_log ex_run4 = [] /\ d_mem (up_dir (s_fs ex_run4)) (lock_name ex_week) = true /\ quiescent ex_run4 = true.
 Proof. vm_compute. repeat split. Qed.
+
+(* ---- the lock belongs to its holder: a name of upload/ disappears only by
+        the unlock step of the live thread that is in its critical section for
+        that week; so while thread j is between lock and unlock, no step of
+        another thread - whatever a run does at its end included - removes j's
+        lock (oracle lock_released_by_other of the suite) ---- *)
+From Tele Require Import Proofs.UploaderLockOwner.
+
+Theorem C08_lock_removed_by_holder : forall st i a n,
+  d_mem (up_dir (s_fs st)) n = true -> d_mem (up_dir (s_fs (step st (i, a)))) n = false ->
+  exists t, nth_error (s_ths st) i = Some t /\ t_killed t = false /\ t_pc t = UUnlock /\
+            in_cs (t_pc t) = true /\ n = lock_name (t_week t).
+Proof. exact up_removed_by_holder. Qed.
+Print Assumptions C08_lock_removed_by_holder.
+
+Theorem C08_lock_kept_by_others : forall st i j a tj,
+  reach st -> nth_error (s_ths st) j = Some tj -> in_cs (t_pc tj) = true -> i <> j ->
+  d_mem (up_dir (s_fs (step st (i, a)))) (lock_name (t_week tj)) = true.
+Proof. exact lock_kept_by_others. Qed.
+Print Assumptions C08_lock_kept_by_others.
